@@ -173,6 +173,46 @@ func (r *pRun) setup() error {
 				}
 			}
 		}()
+	case "ptyout", "ptyout+pipe":
+		// a real terminal device for output only; the input is none, or a pipe (a program whose input is redirected
+		// still learns the window size from its output)
+		m, sl, err := openPty()
+		if err != nil {
+			return err
+		}
+		r.ptyM, r.ptyS = m, sl
+		w0, h0 := sc.Input.W, sc.Input.H
+		if w0 == 0 {
+			w0, h0 = 80, 24
+		}
+		if err := setWinsize(m, w0, h0); err != nil {
+			return err
+		}
+		if t, err := getTermios(sl); err == nil {
+			r.termios0 = t
+		}
+		if sc.Input.Kind == "ptyout" {
+			opts = append(opts, tea.WithInput(nil), tea.WithOutput(sl))
+		} else {
+			pr, pw, err := os.Pipe()
+			if err != nil {
+				return err
+			}
+			r.pipeR, r.pipeW = pr, pw
+			opts = append(opts, tea.WithInput(pr), tea.WithOutput(sl))
+		}
+		go func() {
+			buf := make([]byte, 4096)
+			for {
+				n, err := m.Read(buf)
+				if n > 0 {
+					_, _ = h.out.Write(buf[:n])
+				}
+				if err != nil {
+					return
+				}
+			}
+		}()
 	case "tty":
 		// a new TTY is opened for input by Run itself; fails when the process has no controlling terminal
 		opts = append(opts, tea.WithInputTTY())
@@ -223,6 +263,7 @@ func (r *pRun) startRun() {
 		return
 	}
 	h.runStarted = true
+	h.runStartedAt = time.Now()
 	h.changedLocked()
 	h.mu.Unlock()
 	go func() {
@@ -486,6 +527,14 @@ func (r *pRun) step(i int, st pStep) bool {
 		if st.Sig == "term" {
 			sig = syscall.SIGTERM
 		}
+		// the program registers its handler in a goroutine started by Run: give that goroutine ample time, so that
+		// a process without any handler at this point is one where the program installed none
+		h.mu.Lock()
+		t0 := h.runStartedAt
+		h.mu.Unlock()
+		if d := 150*time.Millisecond - time.Since(t0); !t0.IsZero() && d > 0 {
+			time.Sleep(d)
+		}
 		if err := syscall.Kill(os.Getpid(), sig); err != nil {
 			h.addErr("step %d: kill: %v", i, err)
 		}
@@ -704,6 +753,7 @@ func runIsolated(sc *pScenario) pResult {
 	}
 	c := *sc
 	c.Isolate = false
+	c.Child = true
 	dir, err := os.MkdirTemp("", "verif-iso-*")
 	if err != nil {
 		return fail("mkdtemp: %v", err)
@@ -769,7 +819,11 @@ func programMain(args []string) {
 			os.Exit(2)
 		}
 		for _, st := range s.Script {
-			needSig = needSig || (st.Do == "signal" && !s.Isolate)
+			// in a child process (one scenario) the process stands for the application: it has a handler of its own
+			// only where the application is the one responsible for signals (WithoutSignalHandler); otherwise a
+			// signal that finds no handler takes the process down, and that is the observation
+			appHandles := s.Opts.NoSigHandler == nil || *s.Opts.NoSigHandler
+			needSig = needSig || (st.Do == "signal" && !s.Isolate && (!s.Child || appHandles))
 		}
 		scs = append(scs, s)
 	}
